@@ -213,6 +213,7 @@ pub struct Snapshot<V> {
     pub stop_len: usize,
     pub ring_len: usize,
     pub pol_queue_len: usize,
+    pub pol_stop_len: usize,
     pub closed: bool,
     pub pol_closed: bool,
     pub len: usize,
@@ -300,6 +301,7 @@ mod sync_facade {
             stop_len: c.stop_tx.len(),
             ring_len: c.get_buf.verif_len(),
             pol_queue_len: c.policy.items_tx.len(),
+            pol_stop_len: c.policy.stop_tx.len(),
             closed: c.is_closed.load(std::sync::atomic::Ordering::SeqCst),
             pol_closed: c.policy.is_closed.load(std::sync::atomic::Ordering::SeqCst),
             len: c.store.len(),
@@ -462,6 +464,7 @@ mod async_facade {
             stop_len: c.stop_tx.len(),
             ring_len: c.get_buf.verif_len(),
             pol_queue_len: c.policy.items_tx.len(),
+            pol_stop_len: c.policy.stop_tx.len(),
             closed: c.is_closed.load(std::sync::atomic::Ordering::SeqCst),
             pol_closed: c.policy.is_closed.load(std::sync::atomic::Ordering::SeqCst),
             len: c.store.len(),
